@@ -305,7 +305,26 @@ static void observe(World &w) {
           vf::fail("C03", "set %d: operator[]/at/data wrong at %zu", i, q);
     }
     if (s.capacity() < s.size()) vf::fail("C03", "set %d: capacity < size", i);
+    for (size_t q = mseq.size(); q < mseq.size() + 2; ++q) {
+      bool threw = false;
+      try {
+        (void)s.at((typename S::size_type)q);
+      } catch (const std::out_of_range &) {
+        threw = true;
+      }
+      if (!threw) vf::fail("C03", "set %d: at(%zu) with size %zu did not throw out_of_range", i, q, mseq.size());
+    }
 #endif
+    // c-prefixed iterators and the comparator accessors
+    if (!(s.cbegin() == s.begin()) || !(s.cend() == s.end()) || !(s.crbegin() == s.rbegin()) || !(s.crend() == s.rend()))
+      vf::fail(PTI(), "set %d: c-prefixed iterators disagree with begin / end / rbegin / rend", i);
+    if (fwd.size() >= 2) {
+      auto a0 = s.begin();
+      auto a1 = a0;
+      ++a1;
+      if (kFlat && (!s.value_comp()(*a0, *a1) || s.value_comp()(*a1, *a0) || !s.key_comp()(*a0, *a1)))
+        vf::fail("C03", "set %d: value_comp() / key_comp() do not order two consecutive elements", i);
+    }
     for (int j = 0; j < w.K; ++j) {
       const SetT &o = w.slot[j].s();
       const Model &mo = *w.m[j];
